@@ -16,20 +16,19 @@ from ..harness import Harness, STYPES
 FILE = "lib/core/covfie/core/backend/transformer/clamp.hpp"
 
 
-def make(N, s):
+def make(N, s, route="direct"):
     ct = STYPES[s][0]
     args = [(ct, ('c', k)) for k in range(N)] + [(ct, ('lo', k)) for k in range(N)] + [(ct, ('hi', k)) for k in range(N)] + [("std::uint64_t", 'tag')]
     a = lambda role: "a%d" % [r for _, r in args].index(role)
     body = """
-  using P = verif::vprobe<%s, %d, float, 2>;
-  using B = clamp<P>;
-  B::owning_data_t o(B::configuration_t{{%s}, {%s}}, P::owning_data_t(P::configuration_t{%s}));
+  %s
   B::non_owning_data_t v(o);
   auto r = v.at({%s});
   out[0] = r[0]; out[1] = r[1];
-""" % (ct, N, ", ".join(a(('lo', k)) for k in range(N)), ", ".join(a(('hi', k)) for k in range(N)), a('tag'),
+""" % (harness.construct(route, "clamp", "%s, %d, float, 2" % (ct, N),
+                         "B::configuration_t{{%s}, {%s}}" % (", ".join(a(('lo', k)) for k in range(N)), ", ".join(a(('hi', k)) for k in range(N))), a('tag')),
        ", ".join(a(('c', k)) for k in range(N)))
-    return Harness("clamp_%s_%d" % (s, N), args, body, out=("float", 2), meta={"N": N, "S": s})
+    return Harness("clamp_%s_%d_%s" % (s, N, route), args, body, out=("float", 2), meta={"N": N, "S": s, "route": route})
 
 
 def expected_clamp(rank, c, lo, hi):
@@ -52,6 +51,10 @@ def declare(rep):
 def harnesses(tier):
     Ns = (1, 2, 3) if tier == "quick" else (1, 2, 3, 4)
     hs = [make(N, s) for N in Ns for s in ("size_t", "unsigned", "int", "float", "double")]
+    # the same contract along every other construction route
+    for i, route in enumerate(harness.ROUTES[2:]):  # clamp and backup have no converting constructor
+        for N in (Ns if tier != "quick" else (1 + i % 3,)):
+            hs.append(make(N, ("int", "float", "size_t")[(i + N) % 3], route))
     return hs
 
 
@@ -60,7 +63,7 @@ def run(rep, tier):
     harness.build(hs, "c10")
     orders = list(ir.weak_orderings(3))
     for h in hs:
-        inst = "clamp<%s,%d>" % (h.meta["S"], h.meta["N"])
+        inst = "clamp<%s,%d>" % (h.meta["S"], h.meta["N"]) + (" via " + h.meta["route"] if h.meta.get("route", "direct") != "direct" else "")
         if h.error:
             loc, msg = harness.first_error(h)
             rep.fail("C10.compile", inst, loc, "does not compile: " + msg)
